@@ -111,7 +111,7 @@ impl std::str::FromStr for TOTP {
             match k.as_ref() {
                 "secret" => secret = Some(v.to_string()),
                 "issuer" => issuer = Some(v.to_string()),
-                "period" => period = v.parse()?,
+                "period" => period = v.parse::<std::num::NonZeroU64>()?.get(),
                 "digits" => digits = v.parse()?,
                 "algorithm" => algorithm = v.parse()?,
                 _ => {}
